@@ -163,6 +163,28 @@ func renderPgn(bs *BookSpec) string {
 			}
 		}
 		parts = append(parts, res)
+		// decorations are self-delimiting tokens: PGN allows them to abut the
+		// moves around them without white space ("Nf3{c}Nc6", "c4$1 e6")
+		glued := parts[:0:0]
+		for i := 0; i < len(parts); i++ {
+			pt := parts[i]
+			isDeco := strings.HasPrefix(pt, "{") || strings.HasPrefix(pt, "$")
+			if isDeco && len(glued) > 0 && dec.Intn(3) == 0 && !strings.HasSuffix(glued[len(glued)-1], ".") {
+				// glue to the token before
+				glued[len(glued)-1] += pt
+				// and, for brace comments, sometimes also to the move after it
+				if strings.HasPrefix(pt, "{") && i+1 < len(parts) && dec.Intn(2) == 0 {
+					nx := parts[i+1]
+					if len(nx) > 0 && (nx[0] >= 'A' && nx[0] <= 'Z' || nx[0] >= 'a' && nx[0] <= 'h') && nx != res {
+						glued[len(glued)-1] += nx
+						i++
+					}
+				}
+				continue
+			}
+			glued = append(glued, pt)
+		}
+		parts = glued
 		// wrap lines; a ";" comment may end a line
 		line := ""
 		for _, pt := range parts {
@@ -572,6 +594,37 @@ func initWithWatch(dir, file string, useCache bool) (b *openingbook.Book, err er
 	}
 }
 
+// gobBoundaries returns the offsets at which a message of a gob stream ends
+// (gob frames every message with its byte count).
+func gobBoundaries(data []byte) []int {
+	var out []int
+	i := 0
+	for i < len(data) && len(out) < 64 {
+		// gob unsigned integer: one byte < 128, or a negated byte count followed by big-endian bytes
+		b := data[i]
+		var n uint64
+		if b < 128 {
+			n = uint64(b)
+			i++
+		} else {
+			cnt := int(-int8(b))
+			if cnt < 1 || cnt > 8 || i+1+cnt > len(data) {
+				break
+			}
+			for _, c := range data[i+1 : i+1+cnt] {
+				n = n<<8 | uint64(c)
+			}
+			i += 1 + cnt
+		}
+		if n == 0 || uint64(i)+n > uint64(len(data)) {
+			break
+		}
+		i += int(n)
+		out = append(out, i)
+	}
+	return out
+}
+
 func gobDecodable(data []byte) bool {
 	var m map[uint64]openingbook.BookEntry
 	defer func() { _ = recover() }()
@@ -706,6 +759,18 @@ func RunCache(sc *Scenario) *CacheOut {
 		for k := 0; k < len(good); k += step {
 			if !try("truncate", k, good[:k], "file") {
 				return out
+			}
+		}
+	}
+	// crash points at the boundaries of the encoder's messages (each message
+	// is written at once, so a killed process leaves the file cut exactly
+	// there): every boundary, and one byte before and after it
+	for _, b := range gobBoundaries(good) {
+		for _, k := range []int{b - 1, b, b + 1} {
+			if k > 0 && k < len(good) {
+				if !try("truncate_at_message_boundary", k, good[:k], "file") {
+					return out
+				}
 			}
 		}
 	}
